@@ -77,6 +77,16 @@ Theorem C19_instantiate_argmin :
     first_argmin X K ltb (irank i) p (List.map (irun i) (gen (Z.to_nat n))) /\ params_of X c' = p.
 Proof. exact instantiate_argmin. Qed.
 
+(* the statement without the order hypothesis (what one would like for raw floats) ... *)
+Definition C19_multistart_least_full : Prop :=
+  forall (cost : list Z -> option Z) l p, choose Z (option Z) fltb cost l = Ok p ->
+  forall q, In q l -> cost q <> None -> cost p <> None.
+(* ... is false: a NaN-cost candidate in first position is kept over a finite-cost one *)
+Theorem C19_multistart_nan_refuted :
+  exists (cost : list Z -> option Z) (l : list (list Z)) (p q : list Z),
+    choose Z (option Z) fltb cost l = Ok p /\ In q l /\ cost p = None /\ cost q = Some 0%Z.
+Proof. exact choose_nan_refuted. Qed.
+
 (* which exception, and exactly when *)
 Theorem C19_multistart_errors :
   forall (X K : Type) (ltb : K -> K -> bool) target_ok gen inst cost (c : circuit X) num_starts e,
